@@ -710,9 +710,16 @@ def check(ctx):
     lst = {norm(s.targets[0]): norm(s.value) for s in sorted([x for x in walk_own(li.node) if isinstance(x, ast.Assign)], key=lambda x: x.lineno)}
     # ---- R7: names -----------------------------------------------------------------------------------
     ctx.inst('R7', li, 'log-skip-metadata', lst.get('naming') == 'data[1:]', 'names start after the one metadata byte')
-    ctx.inst('R7', li, 'log-group', lst.get('self.group') == "naming[:naming.find(zt)].decode('ISO-8859-1')" and lst.get('zt') == 'bytearray((0,))',
-             'group = bytes before the first NUL')
-    ctx.inst('R7', li, 'log-name', lst.get('self.name') == "naming[naming.find(zt) + 1:-1].decode('ISO-8859-1')", 'name = bytes between the first NUL and the final NUL')
+    # (the position of the NUL may be kept in a local: the stored expressions are read with the locals - all but `naming` - written out)
+    gli = cfg_of(li)
+
+    def written_out(attr):
+        ns_ = [n_ for n_ in gli.nodes if n_.kind == 'stmt' and isinstance(n_.ast, ast.Assign) and norm(n_.ast.targets[0]) == attr]
+        return norm(gli.expand_locals(ns_[0], ns_[0].ast.value, keep=('naming', 'data'), pure_only=False)) if len(ns_) == 1 else None
+    ctx.inst('R7', li, 'log-group', written_out('self.group') == "naming[:naming.find(bytearray((0,)))].decode('ISO-8859-1')",
+             'group = bytes before the first NUL; found %s' % written_out('self.group'))
+    ctx.inst('R7', li, 'log-name', written_out('self.name') == "naming[naming.find(bytearray((0,))) + 1:-1].decode('ISO-8859-1')",
+             'name = bytes between the first NUL and the final NUL; found %s' % written_out('self.name'))
     ctx.inst('R7', li, 'log-ident', lst.get('self.ident') == 'ident', 'element index = constructor argument')
     pst = {norm(s.targets[0]): norm(s.value) for s in sorted([x for x in walk_own(init.node) if isinstance(x, ast.Assign)], key=lambda x: x.lineno)}
     pall = {(norm(x.targets[0]), norm(x.value)) for x in walk_own(init.node) if isinstance(x, ast.Assign)}
